@@ -44,7 +44,7 @@ type backing interface {
 	name() string
 	state() emu.InstEmuState
 	setInst(i *insts.Inst)
-	load(st *isaspec.State)
+	load(st *isaspec.State, withV bool)
 	setPC(pc uint64)
 	// vgprEqual reports whether the wave's VGPRs equal the image (fast path).
 	vgprEqual(img []uint32) bool
@@ -75,12 +75,14 @@ func (b *emuBacking) state() emu.InstEmuState { return b.st }
 func (b *emuBacking) setInst(i *insts.Inst)   { b.st.inst = i }
 func (b *emuBacking) setPC(pc uint64)         { b.st.SetPC(pc) }
 
-func (b *emuBacking) load(st *isaspec.State) {
+func (b *emuBacking) load(st *isaspec.State, withV bool) {
 	wf := b.st.Wavefront
 	for i := 0; i < isaspec.NumSGPR; i++ {
 		binary.LittleEndian.PutUint32(wf.SRegFile[4*i:], st.SGPR[i])
 	}
-	copy(wf.VRegFile, asBytes(st.VGPR))
+	if withV {
+		copy(wf.VRegFile, asBytes(st.VGPR))
+	}
 	wf.SetVCC(st.VCC)
 	wf.SetEXEC(st.EXEC)
 	wf.SetSCC(byte(st.SCC))
@@ -148,15 +150,16 @@ func (b *timingBacking) setInst(i *insts.Inst) {
 	b.wf.SetDynamicInst(&wavefront.Inst{Inst: i, ID: "c03"})
 }
 
-func (b *timingBacking) load(st *isaspec.State) {
+func (b *timingBacking) load(st *isaspec.State, withV bool) {
 	sb := make([]byte, 4*isaspec.NumSGPR)
 	for i := 0; i < isaspec.NumSGPR; i++ {
 		binary.LittleEndian.PutUint32(sb[4*i:], st.SGPR[i])
 	}
 	b.cu.SRegFile.Write(cu.RegisterAccess{Reg: insts.SReg(0), RegCount: isaspec.NumSGPR, WaveOffset: timingSOff, Data: sb})
-	copy(b.buf, asBytes(st.VGPR))
-	// lane stride of the file is 1024 bytes = 256 registers: identical to the model's layout
-	b.cu.VRegFile[0].Write(cu.RegisterAccess{Reg: insts.VReg(0), RegCount: len(b.buf) / 4, LaneID: 0, WaveOffset: 0, Data: b.buf})
+	if withV {
+		// lane stride of the file is 1024 bytes = 256 registers: identical to the model's layout
+		b.cu.VRegFile[0].Write(cu.RegisterAccess{Reg: insts.VReg(0), RegCount: len(st.VGPR), LaneID: 0, WaveOffset: 0, Data: asBytes(st.VGPR)})
+	}
 	b.wf.SetVCC(st.VCC)
 	b.wf.SetEXEC(st.EXEC)
 	b.wf.SetSCC(byte(st.SCC))
